@@ -82,6 +82,20 @@ func (t *runTarget) Evaluate(engine runner.Engine) error {
 		}
 	}
 
+	// A dependency the target was last run with but no longer declares is a change to its inputs, too: the function
+	// is handed its sources and dependencies, so its outputs may have been computed from the one that is gone.
+	var removedDeps []string
+	for label := range info.Dependencies {
+		if _, ok := depData[label]; !ok {
+			removedDeps = append(removedDeps, label)
+		}
+	}
+	if len(removedDeps) != 0 {
+		sort.Strings(removedDeps)
+		outOfDateDeps = append(outOfDateDeps, removedDeps...)
+		depsUpToDate = false
+	}
+
 	// Check whether the target is up-to-date.
 	upToDate, reason, diff, err := t.target.upToDate()
 	if err != nil {
